@@ -20,6 +20,7 @@ type Job struct {
 	BudgetS  float64 `json:"budget_s"`
 	MaxRuns  int     `json:"max_runs"`           // per worker, 0 = unlimited
 	FirstRun uint64  `json:"first_run"`          // run indices start here
+	SkipK    int     `json:"skip_k,omitempty"`   // this worker's first SkipK runs were done by a predecessor process
 	Replay   string  `json:"replay,omitempty"`   // replay this file instead of generating
 	Hashes   bool    `json:"hashes,omitempty"`   // record a history hash per run (determinism self-test)
 	CurPath  string  `json:"cur_path,omitempty"` // sidecar announcing the run in progress
@@ -55,6 +56,7 @@ type RunResult struct {
 
 	sigs       []uint64
 	nontrivial bool
+	abandoned  bool // the bubble ended with goroutines still blocked in it
 }
 
 // WorkerSummary closes a worker's output.
@@ -71,6 +73,10 @@ type WorkerSummary struct {
 	Inconclusive int               `json:"inconclusive"`
 	Seeds        []uint64          `json:"seeds"` // first few seeds, for the record
 	LegRuns      map[string]int    `json:"leg_runs"`
+	// Restart: a run left goroutines behind in its bubble (deadlocked driver);
+	// the process ends here and the driver starts a fresh one at NextK.
+	Restart bool `json:"restart,omitempty"`
+	NextK   int  `json:"next_k,omitempty"`
 }
 
 func sha(s ...string) string {
@@ -104,10 +110,12 @@ func legFor(property string, rng *rand.Rand, tier string) string {
 		switch {
 		case x < 45:
 			return "search"
-		case x < 70:
+		case x < 68:
 			return "search-game"
-		case x < 88:
+		case x < 85:
 			return "search-tiny"
+		case x < 88:
+			return "search-deep"
 		}
 		return "uci-real"
 	case "C08":
@@ -148,6 +156,8 @@ func generateCase(property string, tier string, run, seed uint64) (*RunCase, *ra
 		rc.Search = genSearchScenario(rng, "c07game", thorough)
 	case "search-tiny":
 		rc.Search = genSearchScenario(rng, "tiny", thorough)
+	case "search-deep":
+		rc.Search = genSearchScenario(rng, "deep", thorough)
 	case "uci-stub", "uci-real", "uci-sweep", "uci-twin":
 		cfg := drawUCIGenCfg(rng, rc.Leg == "uci-stub")
 		if rc.Leg == "uci-twin" {
